@@ -722,6 +722,14 @@ def run(report, tier, seed):
                 c = [rng.choice([1, -1]) * (2 ** rng.randint(53, 62) + rng.choice([1, 3, 5, 7])) for _ in range(3)]
                 pp = c[0] * q[rng.randrange(3)] ** rng.randint(1, 3) + c[1] * q[rng.randrange(3)] * q[10] + c[2]
                 sympy_roundtrip(pp, spec_of(pp), viol, stats)
+    # sympy round trip of float coefficients that need all 16-17 significant digits (and of float constants)
+    if have_sympy:
+        q = numpoly.variable(3)
+        for _ in range(400 if tier == "quick" else 4000):
+            c = [rng.choice([1, -1]) * rng.random() * 10.0 ** rng.randint(-3, 4) for _ in range(3)]
+            pp = rng.choice([c[0] * q[0] ** 2 * q[1] + c[1] * q[2] + c[2], c[0] * q[1] + c[1], numpoly.polynomial(c[2]),
+                             c[0] * q[0] * q[2] ** 3 - c[1] * q[0]])
+            sympy_roundtrip(pp, spec_of(pp), viol, stats)
     # names without a number suffix (force_number_suffix=False), python-side only
     for coefs in ([2, -1, 1], [-1, 0, 3], [1, 1, 1], [0, 0, 0]):
         with numpoly.global_options(force_number_suffix=False):
